@@ -2,6 +2,7 @@
 // SX127x driver-level harnesses (C15, C17, C18).
 use super::*;
 use crate::verif_kani_lora_phy_mock::*;
+use crate::verif_kani_lora_phy_regmock::{rf, RegSpi};
 
 pub(crate) fn radio_1276() -> Sx127x<MockSpi, MockIv, Sx1276> {
     Sx127x::new(MockSpi::new(), MockIv::new(), Config { chip: Sx1276, tcxo_used: kani::any(), tx_boost: kani::any(), rx_boost: kani::any() })
@@ -99,33 +100,30 @@ fn ldro_bit_sx1272() {
 }
 
 // ---- C17: PA configuration, symbol timeout, packet status -------------------------------------
+/// register-file chip model (regmock.rs): the registers are read after the call instead of
+/// scanning a transaction log (the log scan made counterexample playback run out of memory)
 fn tx_power_1276(boost: bool) {
-    let mut r = radio_1276();
+    let mut r = Sx127x::new(RegSpi::new(), MockIv::new(), Config { chip: Sx1276, tcxo_used: false, tx_boost: boost, rx_boost: kani::any() });
     let req: i32 = kani::any();
     let res = block_on(Sx1276::set_tx_power(&mut r, req, boost));
     kani::assert(res.is_ok(), "C17: fault-free bus");
-    let cfg = last_write(spi(), 0x09);
-    let dac = last_write(spi(), 0x4D);
-    match (cfg, dac) {
-        (Some(c), Some(d)) => {
-            let op = (c & 0x0f) as i32;
-            let maxp = ((c >> 4) & 7) as i32;
-            kani::assert((c & 0x80 != 0) == boost, "C17: PaSelect matches the board's PA path");
-            kani::assert(d == 0x84 || d == 0x87, "C17: RegPaDac is one of the two documented values");
-            // SX1276 datasheet 5.4.2/5.4.3, in tenths of a dB
-            let pout10 = if boost {
-                if d == 0x87 { 10 * (5 + op) } else { 10 * (2 + op) }
-            } else {
-                108 + 6 * maxp - 10 * (15 - op)
-            };
-            kani::assert(!(d == 0x87) || boost, "C17: the +20 dBm DAC setting is only used on PA_BOOST");
-            kani::assert(!(d == 0x87) || op >= 10, "C17: +20 dBm mode is defined for OutputPower 15 down to +15 dBm");
-            let (lo, hi) = if boost { (2, 20) } else { (-4, 14) };
-            let want = if req < lo { lo } else if req > hi { hi } else { req };
-            kani::assert(pout10 <= 10 * want && pout10 >= 10 * want - 10, "C17: programmed power is the clamped request (within 1 dB, never above)");
-        }
-        _ => kani::assert(false, "C17: RegPaConfig and RegPaDac must be written"),
-    }
+    kani::assert(!rf().bad, "C17: only well-formed register accesses");
+    let (c, d) = (rf().get(0x09), rf().get(0x4D));
+    let op = (c & 0x0f) as i32;
+    let maxp = ((c >> 4) & 7) as i32;
+    kani::assert((c & 0x80 != 0) == boost, "C17: PaSelect matches the board's PA path");
+    kani::assert(d == 0x84 || d == 0x87, "C17: RegPaDac is one of the two documented values");
+    // SX1276 datasheet 5.4.2/5.4.3, in tenths of a dB
+    let pout10 = if boost {
+        if d == 0x87 { 10 * (5 + op) } else { 10 * (2 + op) }
+    } else {
+        108 + 6 * maxp - 10 * (15 - op)
+    };
+    kani::assert(!(d == 0x87) || boost, "C17: the +20 dBm DAC setting is only used on PA_BOOST");
+    kani::assert(!(d == 0x87) || op >= 10, "C17: +20 dBm mode is defined for OutputPower 15 down to +15 dBm");
+    let (lo, hi) = if boost { (2, 20) } else { (-4, 14) };
+    let want = if req < lo { lo } else if req > hi { hi } else { req };
+    kani::assert(pout10 <= 10 * want && pout10 >= 10 * want - 10, "C17: programmed power is the clamped request (within 1 dB, never above)");
 }
 
 //@h id=tx_power_sx1276_boost props=C17,C13 tier=quick build=phy cost=30 timeout=900
@@ -146,24 +144,21 @@ fn tx_power_sx1276_rfo() {
 }
 
 fn tx_power_1272(boost: bool) {
-    let mut r = radio_1272();
+    let mut r = Sx127x::new(RegSpi::new(), MockIv::new(), Config { chip: Sx1272, tcxo_used: false, tx_boost: boost, rx_boost: kani::any() });
     let req: i32 = kani::any();
     let res = block_on(Sx1272::set_tx_power(&mut r, req, boost));
     kani::assert(res.is_ok(), "C17: fault-free bus");
-    match (last_write(spi(), 0x09), last_write(spi(), 0x5A)) {
-        (Some(c), Some(d)) => {
-            let op = (c & 0x0f) as i32;
-            kani::assert((c & 0x80 != 0) == boost && c & 0x70 == 0, "C17: PaSelect matches the PA path, unused bits clear");
-            kani::assert(d == 0x84 || d == 0x87, "C17: RegPaDac is one of the two documented values");
-            // SX1272 datasheet: RFO Pout = -1 + OutputPower; PA_BOOST 2 + OutputPower (5 + .. with the 20 dBm DAC)
-            let pout = if boost { if d == 0x87 { 5 + op } else { 2 + op } } else { -1 + op };
-            kani::assert(!(d == 0x87) || boost, "C17: the +20 dBm DAC setting is only used on PA_BOOST");
-            let (lo, hi) = if boost { (2, 20) } else { (-1, 14) };
-            let want = if req < lo { lo } else if req > hi { hi } else { req };
-            kani::assert(pout == want, "C17: programmed power is the clamped request");
-        }
-        _ => kani::assert(false, "C17: RegPaConfig and RegPaDac must be written"),
-    }
+    kani::assert(!rf().bad, "C17: only well-formed register accesses");
+    let (c, d) = (rf().get(0x09), rf().get(0x5A));
+    let op = (c & 0x0f) as i32;
+    kani::assert((c & 0x80 != 0) == boost && c & 0x70 == 0, "C17: PaSelect matches the PA path, unused bits clear");
+    kani::assert(d == 0x84 || d == 0x87, "C17: RegPaDac is one of the two documented values");
+    // SX1272 datasheet: RFO Pout = -1 + OutputPower; PA_BOOST 2 + OutputPower (5 + .. with the 20 dBm DAC)
+    let pout = if boost { if d == 0x87 { 5 + op } else { 2 + op } } else { -1 + op };
+    kani::assert(!(d == 0x87) || boost, "C17: the +20 dBm DAC setting is only used on PA_BOOST");
+    let (lo, hi) = if boost { (2, 20) } else { (-1, 14) };
+    let want = if req < lo { lo } else if req > hi { hi } else { req };
+    kani::assert(pout == want, "C17: programmed power is the clamped request");
 }
 //@h id=tx_power_sx1272_boost props=C17,C13 tier=quick build=phy cost=30 timeout=900
 //@bounds every i32 power request on the PA_BOOST path of the SX1272
@@ -188,21 +183,16 @@ fn tx_power_sx1272_rfo() {
 #[kani::proof]
 #[kani::unwind(26)]
 fn symb_timeout_sx127x() {
-    let mut r = radio_1276();
+    let mut r = Sx127x::new(RegSpi::new(), MockIv::new(), Config { chip: Sx1276, tcxo_used: false, tx_boost: kani::any(), rx_boost: kani::any() });
     let n: u16 = kani::any();
     let res = block_on(r.set_lora_symbol_num_timeout(n));
     kani::assert(res.is_ok(), "C17: fault-free bus");
-    let l = spi();
-    let prior = l.script[0][0]; // RegModemConfig2 as read
-    match (last_write(l, 0x1E), last_write(l, 0x1F)) {
-        (Some(c2), Some(lsb)) => {
-            let decoded = (((c2 & 3) as u32) << 8) | lsb as u32;
-            let want = if n > 1023 { 1023 } else { n as u32 };
-            kani::assert(decoded == want, "C17: SymbTimeout decodes to the request (up to the 10-bit maximum)");
-            kani::assert(c2 & 0xFC == prior & 0xFC, "C13: read-modify-write preserves SF/CRC bits of RegModemConfig2");
-        }
-        _ => kani::assert(false, "C17: RegModemConfig2 and RegSymbTimeoutLsb must be written"),
-    }
+    kani::assert(!rf().bad, "C17: only well-formed register accesses");
+    let (c2, lsb, prior) = (rf().get(0x1E), rf().get(0x1F), rf().init(0x1E));
+    let decoded = (((c2 & 3) as u32) << 8) | lsb as u32;
+    let want = if n > 1023 { 1023 } else { n as u32 };
+    kani::assert(decoded == want, "C17: SymbTimeout decodes to the request (up to the 10-bit maximum)");
+    kani::assert(c2 & 0xFC == prior & 0xFC, "C13: read-modify-write preserves SF/CRC bits of RegModemConfig2");
 }
 
 //@h id=pkt_status_sx1276 props=C17 tier=quick build=phy cost=40 timeout=900
@@ -312,7 +302,6 @@ rxp127!(rx_payload_sx127x_b255, 255, true);
 rxp127!(rx_payload_sx127x_b256, 256, false);
 
 // ---- C15 on the chip's register file: the LDRO bit the chip is left with ------------------------
-use crate::verif_kani_lora_phy_regmock::{rf, RegSpi};
 
 fn any_packet_params() -> PacketParams {
     PacketParams { preamble_length: kani::any(), implicit_header: kani::any(), payload_length: kani::any(), crc_on: kani::any(), iq_inverted: kani::any() }
